@@ -210,7 +210,28 @@ func C20Scenarios(tier string) []*h.Scenario {
 			hh.W.AddNode(a, sim.NodeOpt{Age: 24 * Q, NoAlloc: true})
 		}
 		s.Events = func(hh *h.Hist, slot int) []h.Event {
-			return []h.Event{evBurst(g, 3, 4000), evClearAllPods(g), evRestart()}
+			return []h.Event{evBurst(g, 3, 4000), evClearAllPods(g), evRestart(),
+				// nodes leave the cluster for outside reasons after the dry-mode trackers recorded them
+				{Label: "two-oldest-nodes-vanish", Apply: func(hh *h.Hist) {
+					a := hh.W.FindASG(g.ASG.Name)
+					for k := 0; k < 2 && len(a.Instances) > 1; k++ {
+						last := a.Instances[len(a.Instances)-1]
+						a.Instances = a.Instances[:len(a.Instances)-1]
+						a.Desired--
+						hh.W.EC2[last.ID].State = "terminated"
+					}
+					hh.W.Settle()
+				}},
+				{Label: "all-but-one-node-vanish", Apply: func(hh *h.Hist) {
+					a := hh.W.FindASG(g.ASG.Name)
+					for len(a.Instances) > 1 {
+						last := a.Instances[len(a.Instances)-1]
+						a.Instances = a.Instances[:len(a.Instances)-1]
+						a.Desired--
+						hh.W.EC2[last.ID].State = "terminated"
+					}
+					hh.W.Settle()
+				}}}
 		}
 		out = append(out, s)
 	}
